@@ -260,6 +260,8 @@ def check(run):
     _r4(run, prog)
     _r5_radiation_function(run, prog)
     _r6_gaunt(run, prog)
+    run.include('C02', {'cherab/core/math/integrators/integrators1d.pyx'},
+                'the bremsstrahlung bin average is taken with the Gauss quadrature whose node table must follow its order range')
     run.include('C01', {f for f in FILES if f.endswith('.pyx') and '/model/plasma/' in f} | {'cherab/core/plasma/node.pyx', 'cherab/core/plasma/model.pyx', 'cherab/core/utility/notify.py'},
                 'the rates and species a model caches must follow changes of the plasma and the atomic data')
     from ..cachekey import check_caches
